@@ -35,6 +35,7 @@ let () =
            | Err e -> "decerr:" ^ derr_name e)
         | Err _ -> "-" in
       Buffer.add_string b expect_dec;
+      Buffer.add_string b "|src:same";
       let model_obs = Buffer.contents b in
       (* oracle on the implementation's behaviour, independent of agreement with the model:
          bytes must be the canonical form, the predicted length must be the produced length,
@@ -42,9 +43,10 @@ let () =
       let verdict =
         if obs = "builderr" then "skip" else
         match String.split_on_char '|' obs with
-        | [eb; el; ed] ->
+        | [eb; el; ed; es] ->
           let canon = enc { e_allow_links = links; e_sort = SortRFC7049 } v in
           let fails = ref [] in
+          if es <> "src:same" then fails := "source_mutated" :: !fails;
           (match canon with
            | Ok cbs ->
              if sm = "rfc" && eb <> "ok:" ^ hex_of_bytes cbs then fails := "noncanonical" :: !fails;
